@@ -57,7 +57,11 @@ def main():
         path = spec["input_path"]
         with h5py.File(path, "w") as f:
             for k, v in cols.items():
-                f[k] = v[: spec.get("truncate", {}).get(k, len(v))]
+                v = v[: spec.get("truncate", {}).get(k, len(v))]
+                extra = spec.get("extend", {}).get(k, 0)        # a column LONGER than the others
+                if extra:
+                    v = np.concatenate([v, v[:extra]])
+                f[k] = v
         cat = Catalog.from_file(spec["cache"], path, **kw)
     else:
         df = pd.DataFrame(cols)
